@@ -20,6 +20,7 @@ import (
 	"io"
 	"math"
 	"math/big"
+	"os"
 	"regexp"
 	"sort"
 	"strconv"
@@ -346,7 +347,8 @@ type libCase struct {
 var libQueries = map[string]*gojq.Code{}
 
 func init() {
-	for _, q := range []string{"tojson", "tostring", "@json", "@text", `@json "\(.)"`, `"\(.)"`, `@text "\(.)"`, "tojson|fromjson", "[.]|tojson", "{a:.}|tostring"} {
+	for _, q := range []string{"tojson", "tostring", "@json", "@text", `@json "\(.)"`, `"\(.)"`, `@text "\(.)"`, "tojson|fromjson", "[.]|tojson", "{a:.}|tostring",
+		"@json|fromjson", "tostring|fromjson", "[.]|tojson|fromjson|.[0]", "{a:.}|tojson|fromjson|.a", `@json "\(.)"|fromjson`, "fromjson", "tojson|fromjson|tojson"} {
 		libQueries[q] = run.MustCompile(q)
 	}
 }
@@ -405,12 +407,31 @@ func checkLib(c libCase) string {
 	if s, msg := runStr("{a:.}|tostring", v); msg != "" || !sameJSON(s, `{"a":`+text+`}`) {
 		return fmt.Sprintf("{a:.}|tostring gives %q %s, Marshal(.) gives %q", clip(s, 200), msg, clip(text, 200))
 	}
-	res := run.Exec(libQueries["tojson|fromjson"], v, 0, 4)
-	if res.Err != nil || len(res.Vals) != 1 {
-		return fmt.Sprintf("tojson|fromjson: err=%v outputs=%d", res.Err, len(res.Vals))
+	// the read-back leg through gojq's own reader
+	for _, q := range []string{"tojson|fromjson", "@json|fromjson", "tostring|fromjson", "[.]|tojson|fromjson|.[0]", "{a:.}|tojson|fromjson|.a", `@json "\(.)"|fromjson`, "fromjson"} {
+		in := v
+		switch q {
+		case "tostring|fromjson":
+			if isStr {
+				continue // a string is its own text form
+			}
+		case "fromjson":
+			in = text // what Marshal returned, read by fromjson
+		}
+		res := run.Exec(libQueries[q], in, 0, 4)
+		if res.Err != nil || len(res.Vals) != 1 {
+			return fmt.Sprintf("%s: err=%v outputs=%d (Marshal gives %q)", q, res.Err, len(res.Vals), clip(text, 200))
+		}
+		if msg := normMatch(v, res.Vals[0], "$"); msg != "" {
+			return q + " is not the identity: " + msg
+		}
 	}
-	if msg := normMatch(v, res.Vals[0], "$"); msg != "" {
-		return "tojson|fromjson is not the identity: " + msg
+	// (an invalid byte is written as the escape \ufffd, a genuine U+FFFD as
+	// itself: the text is a fixed point only without invalid UTF-8)
+	if !hasBadUTF8(v) {
+		if s, msg := runStr("tojson|fromjson|tojson", v); msg != "" || !sameJSON(s, text) {
+			return fmt.Sprintf("tojson|fromjson|tojson gives %q %s, tojson gives %q", clip(s, 200), msg, clip(text, 200))
+		}
 	}
 	if !univ.Same(v, snapshot) {
 		return "the value was modified by serialising it"
@@ -1532,6 +1553,112 @@ func genProdSrc(t *rapid.T, p producer) string {
 }
 
 // ---------------------------------------------------------------------------
+// the printed text handed back to the command as --argjson, --jsonargs and
+// --slurpfile values comes out as the same text
+
+type rereadCase struct {
+	Vals []univ.V `json:"vals"`
+}
+
+func checkReread(c rereadCase) string {
+	stdin, msg := stdinFor(c.Vals)
+	if msg != "" {
+		return msg
+	}
+	r := cmdline.Run(cmdline.Opt{Stdin: stdin}, "-M", "-c", mkDef+"mk")
+	if r.TimedOut {
+		rec.Discard("cli-timeout")
+		return ""
+	}
+	if r.Exit != 0 || r.Stderr != "" {
+		return fmt.Sprintf("gojq -M -c exited %d, stderr %q", r.Exit, clip(r.Stderr, 600))
+	}
+	lines := strings.Split(strings.TrimSuffix(r.Stdout, "\n"), "\n")
+	if len(lines) != len(c.Vals) {
+		return fmt.Sprintf("%d output lines for %d values", len(lines), len(c.Vals))
+	}
+	total := 0
+	for i, w := range c.Vals {
+		if msg := checkText(w.X, lines[i], false); msg != "" {
+			return fmt.Sprintf("gojq -M -c, value %d (%s): %s", i, clip(univ.Show(w.X), 120), msg)
+		}
+		total += len(lines[i]) + 3
+	}
+	if total > 100000 {
+		rec.Discard("reread-too-long-for-argv")
+		return ""
+	}
+	same := func(how string, rr cmdline.Result) string {
+		if rr.TimedOut {
+			rec.Discard("cli-timeout")
+			return ""
+		}
+		if rr.Exit != 0 || rr.Stderr != "" {
+			return fmt.Sprintf("%s of the printed text %q: exit %d, stderr %q", how, clip(r.Stdout, 300), rr.Exit, clip(rr.Stderr, 400))
+		}
+		got := strings.Split(strings.TrimSuffix(rr.Stdout, "\n"), "\n")
+		if len(got) != len(lines) {
+			return fmt.Sprintf("%s: %d lines for %d values", how, len(got), len(lines))
+		}
+		for i := range lines {
+			if got[i] != lines[i] {
+				if hasBadUTF8(c.Vals[i].X) && checkText(c.Vals[i].X, got[i], false) == "" {
+					continue // \ufffd escape first, the character itself afterwards
+				}
+				return fmt.Sprintf("%s: the printed text %q (value %s) comes back as %q", how, clip(lines[i], 200), clip(univ.Show(c.Vals[i].X), 120), clip(got[i], 200))
+			}
+		}
+		return ""
+	}
+	if msg := same("--argjson", cmdline.Run(cmdline.Opt{NoStdin: true}, "-n", "-M", "-c", "--argjson", "a", "["+strings.Join(lines, ",")+"]", "$a[]")); msg != "" {
+		return msg
+	}
+	args := []string{"-n", "-M", "-c", "$ARGS.positional[][0]", "--jsonargs"}
+	for _, l := range lines {
+		args = append(args, "["+l+"]")
+	}
+	if msg := same("--jsonargs", cmdline.Run(cmdline.Opt{NoStdin: true}, args...)); msg != "" {
+		return msg
+	}
+	f, err := os.CreateTemp("", "c12-slurp-*.json")
+	if err != nil {
+		return "harness: " + err.Error()
+	}
+	defer os.Remove(f.Name())
+	f.WriteString(r.Stdout)
+	f.Close()
+	if msg := same("--slurpfile", cmdline.Run(cmdline.Opt{NoStdin: true}, "-n", "-M", "-c", "--slurpfile", "f", f.Name(), "$f[]")); msg != "" {
+		return msg
+	}
+	return ""
+}
+
+// JSON-significant words in every context, and structural / comment-like
+// text, for use inside strings and keys.
+var (
+	sigWords   = []string{"nan", "NaN", "-nan", "-NaN", "null", "true", "false", "Infinity", "-Infinity", "inf", "1e5", "0x10"}
+	sigBefore  = []string{"", " ", "\t", "\n", ",", ":", "[", "{", "\""}
+	sigAfter   = []string{"", " ", ",", "]", "}", ".", "x"}
+	sigStruct  = []string{"//", "/*", "*/", "/* nan */", "// NaN", "#", "# nan", "\\u", "\\u0000", "\\u00", "\"]", "\":", ",\"", "\",\"", "\":\"", "{\"a\":NaN}", "[nan]", "[NaN,-NaN]", ": NaN,", "loss: NaN, step 3", "x is nan", "is nan", "nan nan", " nan ", ",nan,", ":nan", "[nan", "banana", "nano", "\\", "\\\"", "\\n", "'", "</script>", "\u2028", "-", "--", "+1", "01", ".5", "1.", "1e", "[", "]", "{", "}", ",", ":", "[]", "{}", "\"\""}
+	sigStrings []string
+)
+
+func init() {
+	for _, w := range sigWords {
+		for _, b := range sigBefore {
+			for _, a := range sigAfter {
+				sigStrings = append(sigStrings, b+w+a)
+			}
+		}
+	}
+	sigStrings = append(sigStrings, sigStruct...)
+}
+
+func wrapSig(s string) any {
+	return []any{s, map[string]any{s: s}, map[string]any{"k": []any{s, []any{s}}, s + " ": map[string]any{" " + s: nil}}}
+}
+
+// ---------------------------------------------------------------------------
 // getting an arbitrary Go value out of the command: a JSON "recipe" on stdin
 // and a fixed jq function that rebuilds the value from it.
 
@@ -1812,6 +1939,40 @@ func checkCLI(c cliCase) string {
 			return where + ": indentation: " + msg
 		}
 	}
+	// the command reads its own output: gojq <flags> . on it prints the same text
+	if len(r.Stdout) < 1<<20 {
+		rp := cmdline.Run(cmdline.Opt{Stdin: []byte(r.Stdout)}, append(append([]string{"-M"}, c.Flags...), ".")...)
+		if rp.TimedOut {
+			rec.Discard("cli-timeout")
+			return ""
+		}
+		if rp.Exit != 0 || rp.Stderr != "" {
+			return fmt.Sprintf("gojq -M %v . cannot read the output of gojq -M %v (exit %d, stderr %q)", c.Flags, c.Flags, rp.Exit, clip(rp.Stderr, 600))
+		}
+		if rp.Stdout != r.Stdout {
+			// the text is a fixed point except for invalid UTF-8 (escape \ufffd
+			// first, the character itself afterwards): those values are compared
+			// by reading back
+			if again, msg := splitSentinel(rp.Stdout, len(c.Vals)); msg == "" {
+				ok := true
+				for i, w := range c.Vals {
+					if again[i] != chunks[i] && (!hasBadUTF8(w.X) || checkText(w.X, again[i], true) != "") {
+						ok = false
+					}
+				}
+				if ok {
+					goto reread_ok
+				}
+			}
+			k := 0
+			for k < len(rp.Stdout) && k < len(r.Stdout) && rp.Stdout[k] == r.Stdout[k] {
+				k++
+			}
+			lo := max(0, k-60)
+			return fmt.Sprintf("gojq -M %v | gojq -M %v . differs from the first output at byte %d: first %q, reread %q", c.Flags, c.Flags, k, clip(r.Stdout[lo:], 160), clip(rp.Stdout[lo:], 160))
+		}
+	}
+reread_ok:
 	if c.Color {
 		args := append(append([]string{"-C"}, c.Flags...), query)
 		var env []string
@@ -2042,6 +2203,15 @@ func genStr(t *rapid.T, o gopt) string {
 	case 8:
 		// arbitrary bytes
 		s = string(rapid.SliceOfN(rapid.Byte(), 0, 6).Draw(t, "bytes"))
+	case 9:
+		// JSON-significant words in context, alone or inside a sentence
+		s = rapid.SampledFrom(sigStrings).Draw(t, "sig")
+		switch rapid.IntRange(0, 3).Draw(t, "sigctx") {
+		case 0:
+			s = rapid.SampledFrom([]string{"loss:", "x is", "a,", "[1,", "{\"k\":", "v ="}).Draw(t, "sigpre") + s + rapid.SampledFrom([]string{"", " step 3", ", 2]", "}", " end"}).Draw(t, "sigpost")
+		case 1:
+			s = s + rapid.SampledFrom([]string{" ", ",", ":", "\n"}).Draw(t, "sigglue") + rapid.SampledFrom(sigStrings).Draw(t, "sig2")
+		}
 	default:
 		s = rapid.SampledFrom([]string{"", "a", "b", "ab", "abc", "key", "a b", "\u00e9", "x/y", "1", "true"}).Draw(t, "plain")
 	}
@@ -2373,6 +2543,12 @@ func features(v any, f *feat) {
 	}
 }
 
+func hasBadUTF8(v any) bool {
+	var f feat
+	features(v, &f)
+	return f.bad
+}
+
 // note records classes and the non-trivial key of one value under one option set.
 func note(v any, opts string) {
 	var f feat
@@ -2448,13 +2624,13 @@ func minimiseYAML(c yamlCase) (yamlCase, string) {
 
 func replayCase(sub string, raw json.RawMessage) string {
 	switch sub {
-	case "lib", "str2", "str3", "float":
+	case "lib", "str2", "str3", "float", "sig":
 		var c libCase
 		if err := json.Unmarshal(raw, &c); err != nil {
 			return "bad replay: " + err.Error()
 		}
 		return checkLib(c)
-	case "cli", "str2-cli", "layout", "chain":
+	case "cli", "str2-cli", "layout", "chain", "sig-cli":
 		var c cliCase
 		if err := json.Unmarshal(raw, &c); err != nil {
 			return "bad replay: " + err.Error()
@@ -2478,13 +2654,19 @@ func replayCase(sub string, raw json.RawMessage) string {
 			return "bad replay: " + err.Error()
 		}
 		return checkProducedCLI(c)
+	case "reread", "sig-reread":
+		var c rereadCase
+		if err := json.Unmarshal(raw, &c); err != nil {
+			return "bad replay: " + err.Error()
+		}
+		return checkReread(c)
 	case "yaml-in":
 		var c yinCase
 		if err := json.Unmarshal(raw, &c); err != nil {
 			return "bad replay: " + err.Error()
 		}
 		return checkYAMLIn(c)
-	case "yaml", "str2-yaml":
+	case "yaml", "str2-yaml", "sig-yaml":
 		var c yamlCase
 		if err := json.Unmarshal(raw, &c); err != nil {
 			return "bad replay: " + err.Error()
@@ -2575,6 +2757,75 @@ func TestC12(t *testing.T) {
 		}
 	}
 	rec.Exhaustive("the same strings through --yaml-output | --yaml-input", complete)
+
+	// (E4) JSON-significant words (nan, NaN, null, true, Infinity, 1e5, ...) in
+	// every context (what precedes / follows them) and structural or
+	// comment-like text, as string value, key, array element and nested:
+	// library modes incl. gojq's own reader, the command, its re-reading of
+	// its own output and of argument values, YAML round trip
+	var sigMine []univ.V
+	complete = true
+	for i, str := range sigStrings {
+		if !rec.Mine(i) {
+			continue
+		}
+		for _, v := range []any{str, wrapSig(str)} {
+			c := libCase{V: univ.V{X: v}}
+			rec.Eval()
+			rec.NT("sig|" + str + fmt.Sprint(univ.Depth(v)))
+			rec.Class("sig/lib")
+			if msg := checkLib(c); msg != "" {
+				rec.Direct("sig", c, "%s", msg)
+				complete = false
+			}
+			sigMine = append(sigMine, univ.V{X: v})
+		}
+	}
+	for _, cc := range []cliCase{{Flags: []string{"-c"}, Color: true}, {Flags: []string{}}} {
+		cc.Vals = sigMine
+		rec.EvalN(int64(len(sigMine)))
+		rec.Class("sig/cli")
+		if mc, msg := minimiseCLI(cc); msg != "" {
+			rec.Direct("sig-cli", mc, "%s", msg)
+			complete = false
+		}
+	}
+	{
+		rc := rereadCase{Vals: sigMine}
+		rec.EvalN(int64(len(sigMine)))
+		rec.Class("sig/reread")
+		msg := checkReread(rc)
+		for msg != "" && len(rc.Vals) > 1 {
+			h := len(rc.Vals) / 2
+			a, b := rereadCase{Vals: rc.Vals[:h]}, rereadCase{Vals: rc.Vals[h:]}
+			if m := checkReread(a); m != "" {
+				rc, msg = a, m
+			} else if m := checkReread(b); m != "" {
+				rc, msg = b, m
+			} else {
+				break
+			}
+		}
+		if msg != "" {
+			rec.Direct("sig-reread", rc, "%s", msg)
+			complete = false
+		}
+		yc := yamlCase{Indent: -1}
+		for _, w := range sigMine {
+			if cl := yamlExcluded(w.X, -1); cl != "" {
+				rec.Excluded(cl)
+				continue
+			}
+			yc.Vals = append(yc.Vals, w)
+		}
+		rec.EvalN(int64(len(yc.Vals)))
+		rec.Class("sig/yaml")
+		if mc, msg := minimiseYAML(yc); msg != "" {
+			rec.Direct("sig-yaml", mc, "%s", msg)
+			complete = false
+		}
+	}
+	rec.Exhaustive(fmt.Sprintf("%d JSON-significant words in context and structural texts, as value / key / element / nested", len(sigStrings)), complete)
 
 	// (E3) pure chains of every depth 1..D (arrays, objects, alternating) under
 	// every single layout flag: every indentation width depth x unit up to
@@ -2909,6 +3160,20 @@ func TestC12(t *testing.T) {
 		rec.Class("produced-cli/mode:" + c.Mode)
 		if msg := checkProducedCLI(c); msg != "" {
 			t.Fatalf("%s", rec.Fail("produced-cli", c, "%s", msg))
+		}
+	})
+
+	// (R8) printed text handed back as --argjson / --jsonargs / --slurpfile
+	rec.Rapid(t, "reread", rec.Scale(250, 5000), func(t *rapid.T) {
+		vals := rapid.SliceOfN(valGen(gopt{bad: true, depth: 3, width: 4}), 1, 20).Draw(t, "vals")
+		c := rereadCase{Vals: vals}
+		rec.EvalN(int64(len(vals)))
+		for _, w := range vals {
+			note(w.X, "reread")
+		}
+		rec.Class("reread")
+		if msg := checkReread(c); msg != "" {
+			t.Fatalf("%s", rec.Fail("reread", c, "%s", msg))
 		}
 	})
 
